@@ -706,6 +706,14 @@ class NumModel(Contract):
                     # leaf (cumsum): the last entry is the sum of everything
                     cx.oblige(f"index@{line}:last", "safety", Z(v.hi) >= 1, line)
                     return One(presum(v.a, pR(v.power), Z(v.hi)))
+                if lo is not None and hi is not None and not (isinstance(lo, int) and lo < 0):
+                    # leaf (cumsum, numpy slicing): the one-element slice csp[..., k-1:k] holds entry k-1 = presum(k) and
+                    # broadcasts as a scalar; the side conditions make the reading exact (one element, in range)
+                    cx.oblige(f"slice@{line}:one-element", "enc", Z(hi) == Z(lo) + 1, line)
+                    cx.oblige(f"index@{line}", "safety", And(Z(lo) >= 0, Z(lo) < v.hi), line)
+                    cx.assume(def_presum(v.a, v.power, 0))
+                    cx.assume(lem_presum_mono(v.a, v.power, Z(v.hi), 1, Z(lo) + 1))  # lemma presum-monotone
+                    return One(presum(v.a, pR(v.power), Z(lo) + 1))
                 raise Unsupported("slice of cumsum")
             if P.is_int(idx):
                 cx.oblige(f"index@{line}", "safety", And(Z(idx) >= 0, Z(idx) < v.hi), line)
@@ -750,7 +758,8 @@ class NumModel(Contract):
                 return One(R(a.v) * R(b))
         if op == "Sub" and isinstance(a, One) and P.is_num(b):
             return One(R(a.v) - R(b))
-        if op == "Div" and isinstance(a, One) and P.is_num(b):
+        if op == "Div" and isinstance(a, One) and (P.is_num(b) or isinstance(b, One)):
+            b = b.v if isinstance(b, One) else b
             cx.oblige(f"divzero@{line}", "safety", P.num_cmp("!=", b, 0), line)
             return One(R(a.v) / R(b))
         return NotImplemented
@@ -1666,7 +1675,14 @@ def _fdx_memo(D, out):
                     memo[k] = ("raise", type(e).__name__)
             return memo[k]
 
+        # the decorator actually in force is read from the function on every run: functools.cache /
+        # lru_cache(typed=False) identify arguments that are == and hash-equal whatever their type; typed=True makes the
+        # argument types part of the key.  Whether two argument tuples are identified is decided by the REAL cache:
+        # after f(args) on an empty cache, f(args2) is a hit iff the miss counter does not move.
+        cached = getattr(D, fname)
+        params = cached.cache_parameters() if hasattr(cached, "cache_parameters") else {"typed": False}
         bad = {p: None for p in names}
+        identified = {p: 0 for p in names}
         t0 = time.time()
         for args in itertools.product(*[grid[p] for p in names]):
             for i, p in enumerate(names):
@@ -1675,14 +1691,33 @@ def _fdx_memo(D, out):
                     assert args2 == args and hash(args2) == hash(args)
                     ncalls += 1
                     r1, r2 = run(args), run(args2)
-                    if r1 != r2 and bad[p] is None:
+                    if r1 == r2:
+                        continue  # equal results: identifying the two keys is harmless
+                    if r1[0] != "ok":
+                        continue  # the first call raises: nothing is stored
+                    _clear_caches(D)
+                    with warnings.catch_warnings():
+                        warnings.simplefilter("ignore")
+                        cached(*args)
+                        m0 = cached.cache_info().misses
+                        try:
+                            c2 = ("ok", cached(*args2))
+                        except Exception as e:  # noqa
+                            c2 = ("raise", type(e).__name__)
+                        hit = cached.cache_info().misses == m0
+                    if hit:
+                        identified[p] += 1
+                    if (hit or c2 != r2) and bad[p] is None:
                         bad[p] = dict(replay=dict(kind="memo", fname=fname, args=repr(args), args2=repr(args2)),
-                                      call=f"{fname}.__wrapped__{args!r}  vs  {fname}.__wrapped__{args2!r}",
-                                      observed=f"{r1!r}  !=  {r2!r}",
-                                      expected="equal results: functools.cache identifies the two argument tuples "
-                                               "(they are == and hash-equal), so the cached result depends on call history")
+                                      call=f"{fname}{args!r} then {fname}{args2!r}   (cache_parameters: {params})",
+                                      observed=f"uncached results {r1!r} != {r2!r}, but the cache identifies the two argument "
+                                               f"tuples: the second call returns {c2!r}",
+                                      expected="key-equal argument tuples have equal uncached results (otherwise the cached "
+                                               "result depends on call history)")
         for p in names:
-            out.append(_ob(fname, f"memo-key[param={p}]", "failed" if bad[p] else "discharged", t0, model=bad[p]))
+            o = _ob(fname, f"memo-key[param={p}]", "failed" if bad[p] else "discharged", t0, model=bad[p])
+            o.detail = f"cache_parameters={params}"
+            out.append(o)
     _clear_caches(D)
     return ncalls
 
